@@ -5,6 +5,7 @@ import SplinkVerif.Drv.Score
 import SplinkVerif.Drv.Arith
 import SplinkVerif.Drv.BlockingAnalysis
 import SplinkVerif.Drv.EM
+import SplinkVerif.Drv.Estimators
 /-! Line-protocol driver: one JSON object per input line, one JSON object per output line. -/
 open Lean SplinkVerif.Drv
 
@@ -20,6 +21,7 @@ def dispatch (j : Json) : Except String Json := do
   | "em_step" => handleEMStep j
   | "em_run" => handleEMRun j
   | "em_misc" => handleEMMisc j
+  | "estim" => handleEstim j
   | "ping" => pure (Json.mkObj [("pong", Json.bool true)])
   | _ => throw s!"unknown op {op}"
 
